@@ -306,8 +306,9 @@ func (d *Decoder) readObject(typ reflect.Type, cls ClassDef) (interface{}, error
 		// fmt.Printf("[%d]  >>>> start read field %s: %v, %v, %p\n", readObjectIndexCurr, fldName, vv.Type(), vv.Interface(), vv.Interface())
 		if err != nil {
 			hlog.Debugf("%s is not found, will skip type ->p %v", fldName, typ)
-			// the stream still carries this field's value: consume it so that the following fields stay aligned
-			if _, err := d.ReadData(); err != nil {
+			// the stream still carries this field's value: step over it so that the following fields stay aligned
+			// (it need not be decodable: its class may be unknown here)
+			if err := d.skipValue(); err != nil {
 				return nil, newCodecError("readObject", "failed to skip field '%s'", fldName, err)
 			}
 			continue
